@@ -64,6 +64,16 @@ func genPriv(r *vh.RNG) *ethsecp256k1.PrivKey {
 	}
 }
 
+// genOtherPub: the public key of a different private key.
+func genOtherPub(r *vh.RNG, not *ethsecp256k1.PubKey) *ethsecp256k1.PubKey {
+	for {
+		p := genPriv(r).PubKey().(*ethsecp256k1.PubKey)
+		if !bytes.Equal(p.Key, not.Key) {
+			return p
+		}
+	}
+}
+
 func keyShape(k []byte) string {
 	switch {
 	case k[0] == 0 && k[1] == 0:
@@ -279,7 +289,7 @@ func (e *keyEnv) checkKey(i int) {
 			copy(s[32:64], t[:])
 		}))
 		// key
-		otherPub := genPriv(r).PubKey().(*ethsecp256k1.PubKey)
+		otherPub := genOtherPub(r, pub)
 		neg("key-other:"+form.n, otherPub, msg, s0)
 		flipped := &ethsecp256k1.PubKey{Key: append([]byte{pub.Key[0] ^ 1}, pub.Key[1:]...)} // same X, other Y: the negated key
 		neg("key-negated:"+form.n, flipped, msg, s0)
